@@ -50,6 +50,45 @@ func runStringer(c Case, tr *Tracer) {
 		}
 		return s
 	}
+	if st := caseList(c, "steps"); len(st) > 0 { // a walk of Stringer.tla (Gen_Stringer)
+		var p *packet.PDUStringer
+		for _, x := range st {
+			switch caseStr(x, "a") {
+			case "new":
+				p = packet.NewPDUStringer()
+				tr.emit(Ev{"ev": "New", "site": "packet.NewPDUStringer"})
+			case "w":
+				field, kind, wb := string(caseBytes(x, "field")), caseStr(x, "kind"), caseBool(x, "wb")
+				e := Ev{"ev": "W", "field": B([]byte(field)), "kind": kind, "wb": wb, "omit": caseBool(x, "omit"), "site": "PDUStringer.Write"}
+				var v interface{}
+				switch kind {
+				case "s":
+					e["v"], v = B(caseBytes(x, "v")), string(caseBytes(x, "v"))
+				case "y":
+					e["v"], v = B(caseBytes(x, "v")), caseBytes(x, "v")
+				case "n":
+					e["v"], v = caseInt(x, "n"), []interface{}{caseInt(x, "n"), int64(caseInt(x, "n")), int32(caseInt(x, "n"))}[rr.Intn(3)]
+				default:
+					e["v"], v = caseBool(x, "b"), caseBool(x, "b")
+				}
+				switch {
+				case caseBool(x, "omit"):
+					p.OmitWrite(field, v.(string))
+				case wb:
+					p.WriteWithBytes(field, v)
+				default:
+					p.Write(field, v)
+				}
+				tr.emit(e)
+			case "str":
+				tr.emit(Ev{"ev": "Str", "out": B([]byte(p.String())), "site": "PDUStringer.String"})
+			case "rel":
+				p.Release()
+				tr.emit(Ev{"ev": "Rel", "site": "PDUStringer.Release"})
+			}
+		}
+		return
+	}
 	for obj := 1 + rr.Intn(4); obj > 0; obj-- {
 		p := packet.NewPDUStringer()
 		tr.emit(Ev{"ev": "New", "site": "packet.NewPDUStringer"})
